@@ -82,8 +82,8 @@ def case : P String := do
     let g ← floats; let t ← float
     pure (resOut toString (findNearestIndex g t))
   | "lin" => do
-    let a ← float; let b ← float; let n ← nat
-    pure (resOut (fun (l : List Float) => joinSp (toString l.length :: l.map fo)) (linspace a b n))
+    let a ← float; let b ← float; let n ← nat; let cap ← nat
+    pure (resOut (fun (l : List Float) => joinSp (toString l.length :: l.map fo)) (linspaceAlloc cap a b n))
   | "i0" => do
     let s ← strategyP; let v ← float; let pts ← listOf floats
     pure (evalPoints "v" s (.d0 v) pts)
@@ -116,6 +116,7 @@ def case : P String := do
     let su ← unitP SpeedUnit.ofName?; let gu ← unitP GradeUnit.ofName?; let ru ← unitP EnergyRateUnit.ofName?
     let s0 ← float; let s1 ← float; let sb ← nat
     let g0 ← float; let g1 ← float; let gb ← nat
+    let cap ← nat
     let u ← listOf floats
     let nq ← nat
     let rec queries : Nat → List (Float × SpeedUnit × Float × GradeUnit) → P (List (Float × SpeedUnit × Float × GradeUnit))
@@ -124,9 +125,10 @@ def case : P String := do
         let s ← float; let qsu ← unitP SpeedUnit.ofName?; let g ← float; let qgu ← unitP GradeUnit.ofName?
         queries k ((s, qsu, g, qgu) :: acc)
     let qs ← queries nq []
-    let xs := resList (linspace s0 s1 sb)
-    let ys := resList (linspace g0 g1 gb)
-    match SpeedGradeModel.new (tableFn xs ys u) su s0 s1 sb gu g0 g1 gb ru with
+    -- the table of underlying rates is only consulted for allocatable grids
+    let xs := if cap < sb then [] else resList (linspace s0 s1 sb)
+    let ys := if cap < gb then [] else resList (linspace g0 g1 gb)
+    match SpeedGradeModel.newAlloc cap (tableFn xs ys u) su s0 s1 sb gu g0 g1 gb ru with
     | .ok m =>
       pure (joinSp (qs.map fun (s, qsu, g, qgu) =>
         resOut (fun (p : Float × EnergyRateUnit) => fo p.1 ++ " " ++ p.2.name) (m.predict s qsu g qgu)))
@@ -151,13 +153,14 @@ def case : P String := do
     let mt ← modelTypeP
     let su ← unitP SpeedUnit.ofName?; let gu ← unitP GradeUnit.ofName?; let ru ← unitP EnergyRateUnit.ofName?
     let fileOk ← bool
+    let cap ← nat
     let ideal ← optOf float; let adj ← optOf float
     let tbl ← pointsP
     let qs ← listOf (do
       let s ← float; let qsu ← unitP SpeedUnit.ofName?; let g ← float; let qgu ← unitP GradeUnit.ofName?
       let d ← float; let du ← unitP DistanceUnit.ofName?
       pure (s, qsu, g, qgu, d, du))
-    match loadPredictionModel (pointFn tbl) fileOk mt su gu ru ideal adj with
+    match loadPredictionModel cap (pointFn tbl) fileOk mt su gu ru ideal adj with
     | .ok r =>
       let head := "ok " ++ fo r.idealEnergyRate ++ " " ++ fo r.realWorldEnergyAdjustment ++ " "
         ++ r.speedUnit.name ++ " " ++ r.gradeUnit.name ++ " " ++ r.energyRateUnit.name
